@@ -3,3 +3,4 @@ From Coq Require Import String List Bool.
 From V9 Require Import Gen.Shape Shape.ShapeLib.
 
 Lemma disconnect_paths_ok : disconnect_paths = true.  Proof. vm_compute. reflexivity. Qed.
+Lemma ufs_link_drops_reference_ok : ufs_link_drops_reference = true.  Proof. vm_compute. reflexivity. Qed.
